@@ -187,9 +187,37 @@ func (sp *safetyPass) instr(st *State, in ssa.Instruction) {
 		if sp.on["ARITH"] {
 			sp.arith(st, x)
 		}
+	case *ssa.MakeInterface:
+		if sp.on["NILSRC"] {
+			sp.typedNil(st, x)
+		}
 	case *ssa.Panic:
 		// handled by PANIC rule (site-based)
 	}
+}
+
+// typedNil: a pointer that may be nil (result of a first-party function with a
+// nil-returning path) is boxed into an interface without a guard: later
+// `iface != nil` tests are true for it and the first method call dereferences nil.
+func (sp *safetyPass) typedNil(st *State, x *ssa.MakeInterface) {
+	if _, ok := x.X.Type().Underlying().(*types.Pointer); !ok {
+		return
+	}
+	r := sp.ex.Resolve(st, x.X)
+	call, ok := r.(*ssa.Call)
+	if !ok {
+		return
+	}
+	fn := call.Call.StaticCallee()
+	if fn == nil || !FirstParty(fn) || fn.Signature.Results().Len() != 1 || !sp.mayReturnNil(fn, 0, 0) {
+		return
+	}
+	desc := "box " + sp.ex.Canon(nil, x.X).S + " into " + shortType(x.Type())
+	if n, _ := sp.ex.NilState(st, x.X); n == 0 {
+		sp.add("NILSRC", "typednil", desc, x, Discharged, "pointer is shown non-nil before it is converted to an interface", st)
+		return
+	}
+	sp.add("NILSRC", "typednil", desc, x, Violated, fmt.Sprintf("%s can return a nil pointer, which is converted to the interface type %s without a guard: the interface is then non-nil (typed nil) and every later `!= nil` test passes", shortFn(fn), shortType(x.Type())), st)
 }
 
 func fieldName(x *ssa.FieldAddr) string {
